@@ -93,7 +93,28 @@ STR_TYPES = ("std::string::String", "str", "&str", "&std::string::String")
 STR_METHODS = re.compile(r"^core::str::<impl str>::(starts_with|ends_with|contains|find|strip_prefix|strip_suffix|eq)$")
 
 
+def _is_raw_text_compare(t):
+    cp = t.get("cpath") or ""
+    st = t.get("self_ty") or ""
+    return bool((cp in RAW and (st in STR_TYPES or st.startswith("&str"))) or
+                (STR_METHODS.match(cp) and _pattern_is_str(t)))
+
+
+# the tree may legitimately contain no raw comparison at all (it did not after INSTR was changed to
+# compare bytes): these synthetic call records keep the detector honest on every run
+_SELFTEST = [
+    ({"cpath": "std::cmp::PartialEq::eq", "self_ty": "str", "args": [], "f": {}}, True),
+    ({"cpath": "std::cmp::PartialEq::eq", "self_ty": "std::string::String", "args": [], "f": {}}, True),
+    ({"cpath": "core::str::<impl str>::starts_with", "self_ty": "", "args": [], "f": {"k": {"gargs": ["&str"]}}}, True),
+    ({"cpath": "std::cmp::PartialEq::eq", "self_ty": "rusty_common::CaseInsensitiveString", "args": [], "f": {}}, False),
+]
+
+
 def r2_raw_comparisons(ctx, rule="C09.R2"):
+    for rec, want in _SELFTEST:
+        if _is_raw_text_compare(rec) != want:
+            raise CheckError("%s: detector self-test failed on %s" % (rule, rec["cpath"]))
+    ctx.ok(rule, rule + ":detector-self-test", "rbv/rules/c09.py", "%d synthetic call records classified as expected" % len(_SELFTEST))
     prog = ctx.prog
     table = json.load(open(os.path.join(VERIF, "tables", "raw_text_compare.json")))
     allowed = {e["function"]: e["reason"] for e in table["run_time_data"]}
@@ -107,9 +128,7 @@ def r2_raw_comparisons(ctx, rule="C09.R2"):
         for b, t in fn.body.calls():
             cp = t.get("cpath") or ""
             st = t.get("self_ty") or ""
-            hit = (cp in RAW and (st in STR_TYPES or st.startswith("&str"))) or \
-                  (STR_METHODS.match(cp) and _pattern_is_str(t))
-            if not hit:
+            if not _is_raw_text_compare(t):
                 continue
             if STR_METHODS.match(cp) and _pattern_case_free(t):
                 continue
